@@ -32,6 +32,9 @@ func genCase(t *rapid.T) gen.History {
 		ho.MaxBatch = 30
 	}
 	h := gen.GenHistory(t, so, ho)
+	if rapid.IntRange(0, 7).Draw(t, "highIds") == 0 {
+		h.FirstNodeId = gen.GenFirstNodeId(t, "firstNode")
+	}
 	// merged documents exactly at, one below and one above the per-point size limit (the limit applies to
 	// the merged document of an update; it is small in a third of the histories)
 	if h.MaxPointSize < 1<<20 {
@@ -202,6 +205,12 @@ func execCase(h gen.History) (res vt.Result) {
 		return vt.Result{Err: fmt.Errorf("open: %v", err)}
 	}
 	defer func() { s.Close() }()
+	if h.FirstNodeId > 0 {
+		if err := s.PresetNextNodeId(h.FirstNodeId); err != nil {
+			return vt.Result{Err: err}
+		}
+		rec.Count("histories_with_preset_node_ids", 1)
+	}
 	m := model.NewCollection(h.Schema, h.MaxPointSize)
 	poolSet := map[uuid.UUID]bool{}
 	for _, st := range h.Steps {
